@@ -380,6 +380,7 @@ func (m *Map[K, V]) Range(f func(key K, value V) bool) {
 	}
 
 	for k, e := range read.m {
+		verifIter(k)
 		v, ok := e.load()
 		if !ok {
 			continue
@@ -410,6 +411,7 @@ func (m *Map[K, V]) dirtyLocked() {
 	read, _ := m.read.Load().(readOnly[K, V])
 	m.dirty = make(map[K]*entry[V], len(read.m))
 	for k, e := range read.m {
+		verifIter(k)
 		if !e.tryExpungeLocked() {
 			m.dirty[k] = e
 		}
